@@ -37,6 +37,17 @@ Definition ofCell (c : cell) : tree :=
 Definition ofTState (st : tstate) : tree :=
   L [I (flag_bits (t_flags st) 1); ofTColor (t_fg st); ofTColor (t_bg st); ofOpt ofStr (t_link st)].
 
+(* history steps: [0, cfg, text] render | [1] without_color | [2] copy | [3, link?] update_link
+   | [4, style] current + style | [5, style] style + current *)
+Definition tHop (t : tree) : hop :=
+  let tag := tZ (tNth t 0) in
+  if tag =? 0 then HRender (tCfg (tNth t 1)) (tStr (tNth t 2))
+  else if tag =? 1 then HWithoutColor
+  else if tag =? 2 then HCopy
+  else if tag =? 3 then HUpdateLink (tOpt tStr (tNth t 1))
+  else if tag =? 4 then HAddRight (tStyle (tNth t 1))
+  else HAddLeft (tStyle (tNth t 1)).
+
 Definition ops : list (string * (tree -> tree)) := [
   (* the oracle itself: str -> [cells, in ground state?, final rendition, SGR parameters, #other controls] *)
   ("sgr.interp", fun t =>
@@ -55,6 +66,12 @@ Definition ops : list (string * (tree -> tree)) := [
         (do s <- style_parse (tStr (tNth t 1));
          render_history (tB (tNth t 0)) s None (tStr (tNth t 2)) (tStr (tNth t 3))
                         (tList DrvColor.tSys (tNth t 4))));
+  (* [link_id, style, [step...]] -> what each console wrote, in order *)
+  ("ansi.hist", fun t =>
+      ofRes (ofList ofStr)
+        (run_hist true (tStr (tNth t 0)) (tStyle (tNth t 1), None) (tList tHop (tNth t 2))));
+  ("spec.ansi.hist_ok", fun t =>     (* [link_id, style, steps, outs] *)
+      ofB (hist_ok_b (tStr (tNth t 0)) (tStyle (tNth t 1)) (tList tHop (tNth t 2)) (tList tStr (tNth t 3))));
   ("ansi.expected", fun t => ofList ofCell (expected (tCfg (tNth t 0)) (tList tASeg (tNth t 1))));
   ("ansi.segs_ok", fun t => ofB (segs_ok (tCfg (tNth t 0)) (tList tASeg (tNth t 1))));
   (* spec-level checkers, applied by the harness to the bytes the implementation wrote *)
